@@ -75,7 +75,7 @@ pub fn cut_sign_sub_nodes(sub_nodes: &mut HashMap<String, Vec<InsertEntity>>, si
 //@ result r
 //@ attr #[verifier::loop_isolation(false)]
 //@ attr #[verifier::exec_allows_no_decreases_clause]
-//@ cut "for query in &mut self.sub_nodes" => "cut_sign_sub_nodes(&mut self.sub_nodes, signing_key)?;"
+//@ cut "for query in &mut self.sub_nodes" => "cut_sign_sub_nodes(&mut self.sub_nodes, signing_key)?;" body-verified
 //@ rewrite E17 "(?<=for edge in )&mut self\.edge_insertions(?= \{)" => "self.edge_insertions.iter_mut()" x1
 //@ loop "for edge in" iter it
             invariant
